@@ -40,6 +40,8 @@ def closure(facts, kinds, taker):
                 new.add((s, "attends", o))
             if f == "chairs" and kinds.get(taker[s]) in ("Delegate", "Convener"):   # Chairs < Attends, the field lives on a subclass of the
                 new.add((taker[s], "attends", o))                       # declared role taker type
+            if f == "guides" and kinds.get(taker[s]) in ("Delegate", "Convener"):   # Guides < Sees, no inverse involved
+                new.add((taker[s], "sees", o))
             if f == "under":                          # the same transitive property declared on another class
                 for (s2, f2, o2) in F:
                     if f2 == "sub_org_of" and s2 == o:
@@ -76,13 +78,13 @@ def observe_fields(om, named):
         elif isinstance(o, getattr(om, "Unit", ())):
             fl = ("under",)
         elif isinstance(o, getattr(om, "Convener", ())):
-            fl = ("attends", "leads")
+            fl = ("attends", "leads", "sees")
         elif isinstance(o, getattr(om, "Delegate", ())):
-            fl = ("attends",)
+            fl = ("attends", "sees")
         elif isinstance(o, getattr(om, "Visitor", ())):
             fl = ()
         elif isinstance(o, getattr(om, "Chair", ())):
-            fl = ("chairs",)
+            fl = ("chairs", "guides")
         elif isinstance(o, getattr(om, "VOrg", ())):
             fl = ("members",)
         elif isinstance(o, getattr(om, "VPerson", ())):
